@@ -151,6 +151,7 @@ func checkC01(t failer, c *codec, m interface{}) {
 			"%s: decoding RFC-laid-out bytes yields other field values\n got =%s\n want=%s", c.name, js(back), js(exp))
 	}
 	checkDirtyTarget(t, "C01", c, want, back, cc)
+	keepEncoding(t, "C01", c, got, want, cc)
 	ev.Class(c.name + ":ok")
 	if c.nontrivial(m) {
 		ev.NonTrivial(c.name, cc)
